@@ -400,7 +400,7 @@ def gen_history(rng, inputs, dicts, t, c, fids, aux_cdict_slot, allow_abort_tail
         k = rng.choice(menu)
         last = it == nitems - 1
         if k in ("frame", "rowframe", "optframe"):
-            api = rng.choice(["c2", "c2", "stream", "cctx", "adv", "bl", "udict", "ucdict"])
+            api = rng.choice(["c2", "c2", "stream", "cctx", "adv", "bl", "udict", "ucdict", "blcdict"])
             if k != "frame":
                 api = rng.choice(["c2", "stream"])
             h = gen_target(rng, inputs, dicts, api=api, small=True)
@@ -586,6 +586,15 @@ def build_group(rng, gid, t, inputs, dicts, want_hex=False, trace=False):
         if hist:
             hl, kinds = gen_history(rng, inputs, dicts, t, c, fids, 2)
             L.extend(hl)
+            if t.cdict and rng.random() < 0.7:
+                # the last frame of the history leaves a pledged size on the other side of every attach / copy / load
+                # threshold (8 KB .. 32 KB attach cutoffs, 128 KB, 6 x dictionary size) than the target's
+                n_t = t.src[1]
+                pool = [i for i in inputs if (i[1] >= 140000 if n_t <= 40000 else 0 < i[1] <= 4097)]
+                if pool:
+                    js = rng.choice(pool)
+                    L.append("F %d %d %d %d 0 0 0 cctx %d 0" % (c, fids.next(), js[0], js[1], rng.choice([1, 3])))
+                    kinds.append("pledged-straddle")
         if contig:
             # previous frame = same bytes, placed so that the target's input starts exactly where it ended
             h0 = rng.choice([64, 100, 4096])
@@ -1472,6 +1481,20 @@ def run(ctx):
         if len(ctx.cov["samples"]) < 6 and g.gid % 17 == 0:
             ctx.sample(dict(target=g.t.describe(), variants=[(l, i) for _, l, _, i in g.variants][:4],
                             result="all outputs byte-identical to the fresh-context output" if not any(v[1] is g for v in viol) else "see violations"))
+    if not quick and only is None:
+        # supporting run: the first groups again under ASan + UBSan (garbage indices, reads outside the workspace)
+        try:
+            exe_asan = core.build_harness("c07_det", ["c07_det.c"], variant="asan", extra_flags=["-w"])
+            sub = [g for g in groups if not g.mt][:150]
+            t1 = time.time()
+            for g, res in run_groups(exe_asan, blob_path, sub, ctx.seed):
+                rc, out, err, script = res
+                ctx.count(("asan", g.t.api, rc == 0), nontrivial=True)
+                if rc != 0:
+                    report("crash", g, dict(variant="asan+ubsan", rc=rc, stderr=err[-1500:], last=out[-200:]))
+            log("asan run of %d groups in %.1fs" % (len(sub), time.time() - t1))
+        except Exception as e:
+            viol.append(("crash", None, dict(what="asan run failed to start", error=repr(e)), None))
     try:
         n_ok = run_lockstep(ctx, model, per_group, report)
         n_ok2 = extra_lockstep(ctx, model, per_group, report)
